@@ -16,14 +16,13 @@ structure RelOK (R : St → St → Prop) : Prop where
   refl : ∀ st, R st st
   trans : ∀ {a b c}, R a b → R b c → R a c
   store : ∀ st g k v, R st (st.store g k v)
-  misb : ∀ st : St, R st { st with misbinds := st.misbinds + 1 }
-  spawn : ∀ st st1 : St, R { st with spawns := st.spawns + 1 } st1 →
-    R st { st1 with cache := st.cache, loaded := st.loaded }
+  spawn : ∀ st st1 : St, R { st with spawns := st.spawns + 1, importing := [] } st1 →
+    R st { st1 with cache := st.cache, loaded := st.loaded, importing := st.importing }
 
 variable {R : St → St → Prop}
 
 theorem bindItems_rel (hR : RelOK R) (all : List (Path × Path)) (g : Nat) :
-    ∀ (items : List (Path × Path)) (ps : List (Val × Bool)) (st : St),
+    ∀ (items : List (Path × Path)) (ps : List Val) (st : St),
       R st (bindItems all g items ps st).1 := by
   intro items
   induction items with
@@ -32,15 +31,29 @@ theorem bindItems_rel (hR : RelOK R) (all : List (Path × Path)) (g : Nat) :
     intro ps st
     cases ps with
     | nil => simp only [bindItems]; exact hR.refl st
-    | cons p ps =>
+    | cons v ps =>
       obtain ⟨nm, al⟩ := it
-      obtain ⟨v, j⟩ := p
       simp only [bindItems]
       exact hR.trans (hR.store st g _ v) (ih ps _)
 
+theorem fromOne_rel (hR : RelOK R) (imp : ImpFn) (himp : ∀ d st n, R st (imp d st n).2)
+    (env : Env) (depth : Nat) (parent nm : Path) (st : St) :
+    R st (fromOne imp env depth parent nm st).2 := by
+  simp only [fromOne]
+  have h1 := himp depth st (parent ++ 47 :: nm)
+  split
+  · exact h1
+  · exact h1
+  · have h2 := himp depth (imp depth st (parent ++ 47 :: nm)).2 parent
+    split
+    · split
+      · exact hR.trans h1 h2
+      · exact hR.trans h1 h2
+    · exact hR.trans h1 h2
+
 theorem fromLoop_rel (hR : RelOK R) (imp : ImpFn) (himp : ∀ d st n, R st (imp d st n).2)
     (env : Env) (depth : Nat) (parent : Path) :
-    ∀ (names : List Path) (st : St) (ps : List (Val × Bool)),
+    ∀ (names : List Path) (st : St) (ps : List Val),
       R st (fromLoop imp env depth parent names st ps).2 := by
   intro names
   induction names with
@@ -48,21 +61,14 @@ theorem fromLoop_rel (hR : RelOK R) (imp : ImpFn) (himp : ∀ d st n, R st (imp 
   | cons nm rest ih =>
     intro st ps
     simp only [fromLoop]
-    have h1 := himp depth st (parent ++ 47 :: nm)
+    have h1 := fromOne_rel hR imp himp env depth parent nm st
     split
     · exact hR.trans h1 (ih _ _)
     · exact h1
-    · have h2 := himp depth (imp depth st (parent ++ 47 :: nm)).2 parent
-      split
-      · split
-        · exact hR.trans h1 (hR.trans h2 (ih _ _))
-        · exact hR.trans h1 h2
-      · exact hR.trans h1 h2
-      · exact hR.trans h1 h2
 
 theorem execStmt_rel (hR : RelOK R) (imp : ImpFn) (himp : ∀ d st n, R st (imp d st n).2)
-    (env : Env) (g depth : Nat) (st : St) (left : List Val) (s : Stmt) :
-    R st (execStmt imp env g depth st left s).2 := by
+    (env : Env) (g depth : Nat) (st : St) (s : Stmt) :
+    R st (execStmt imp env g depth st s).2 := by
   cases s with
   | imp name alias =>
     simp only [execStmt]
@@ -73,9 +79,7 @@ theorem execStmt_rel (hR : RelOK R) (imp : ImpFn) (himp : ∀ d st n, R st (imp 
     simp only [execStmt]
     have hl := fromLoop_rel hR imp himp env depth parent (items.map (·.1)).reverse st []
     split
-    · split
-      · exact hR.trans hl (hR.trans (hR.misb _) (bindItems_rel hR items g items _ _))
-      · exact hR.trans hl (bindItems_rel hR items g items _ _)
+    · exact hR.trans hl (bindItems_rel hR items g items _ _)
     · exact hl
   | set var val => simp only [execStmt]; exact hR.store st g var _
   | setVia alias var val =>
@@ -111,44 +115,45 @@ theorem execStmt_rel (hR : RelOK R) (imp : ImpFn) (himp : ∀ d st n, R st (imp 
     · split <;> exact himp (depth + 1) st name
   | spawnImp name =>
     simp only [execStmt]
-    have h := hR.spawn st _ (himp 1 { st with spawns := st.spawns + 1 } name)
+    have h := hR.spawn st _ (himp 1 { st with spawns := st.spawns + 1, importing := [] } name)
     split <;> exact h
   | fail => simp only [execStmt]; exact hR.refl st
 
 theorem execStmts_rel (hR : RelOK R) (imp : ImpFn) (himp : ∀ d st n, R st (imp d st n).2)
     (env : Env) (g depth : Nat) :
-    ∀ (ss : List Stmt) (st : St) (left : List Val), R st (execStmts imp env g depth ss st left).2 := by
+    ∀ (ss : List Stmt) (st : St), R st (execStmts imp env g depth ss st).2 := by
   intro ss
   induction ss with
-  | nil => intro st left; simp only [execStmts]; exact hR.refl st
+  | nil => intro st; simp only [execStmts]; exact hR.refl st
   | cons s rest ih =>
-    intro st left
+    intro st
     simp only [execStmts]
-    have h := execStmt_rel hR imp himp env g depth st left s
+    have h := execStmt_rel hR imp himp env g depth st s
     split
-    · exact hR.trans h (ih _ _)
+    · exact hR.trans h (ih _)
     · exact h
 
-/-- what a stack-indexed relation must satisfy at the steps of `vm.importModule` (for the
-    importer configured in `env`) -/
-structure ImpOK (env : Env) (R : List Path → St → St → Prop) : Prop where
-  rel : ∀ stack, RelOK (R stack)
-  nofuel : ∀ stack (st : St) name, R stack st (({ st with nofuel := true } : St).fail name)
-  opens : ∀ stack (st : St) name, R stack st (st.noteOpens env name)
-  compiled : ∀ stack (st : St) name, R stack st (st.noteCompiled env name)
-  load : ∀ stack (st : St) c, R stack st (st.loadCode c)
-  overflow : ∀ stack (st : St) name, R stack st (st.fail name)
-  /-- the body: entered from `st3` (where `name` is not cached, the importer returned the code
-      object `c` for it and that code is loaded with the globals array `gid`), evaluated under
-      the relation of the extended stack, then cached -/
-  bodyOk : ∀ stack (st3 st5 : St) name gid, st3.cache.lookup name = none →
+/-- what a relation must satisfy at the steps of `vm.importModule` (for the importer
+    configured in `env`) -/
+structure ImpOK (env : Env) (R : St → St → Prop) : Prop where
+  rel : RelOK R
+  nofuel : ∀ (st : St) name, R st (({ st with nofuel := true } : St).fail name)
+  refuse : ∀ (st : St) name, R st (st.refuse name)
+  opens : ∀ (st : St) name, R st (st.noteOpens env name)
+  compiled : ∀ (st : St) name, R st (st.noteCompiled env name)
+  load : ∀ (st : St) c, R st (st.loadCode c)
+  overflow : ∀ (st : St) name, R st (st.fail name)
+  /-- the body: entered from `st3` (where `name` is neither cached nor being imported, the
+      importer returned the code object `c` for it and that code is loaded with the globals
+      array `gid`), evaluated, left, then cached -/
+  bodyOk : ∀ (st3 st5 : St) name gid, st3.cache.lookup name = none → name ∉ st3.importing →
     (∃ c, (name, c) ∈ st3.compiled ∧ (c, gid) ∈ st3.loaded) →
-    R (name :: stack) (st3.enter name gid stack) st5 →
-    R stack st3 (st5.cacheAdd name st3.objs.length)
-  bodyFail : ∀ stack (st3 st5 : St) name gid, st3.cache.lookup name = none →
+    R (st3.enter name gid) st5 →
+    R st3 (st5.leave.cacheAdd name st3.objs.length)
+  bodyFail : ∀ (st3 st5 : St) name gid, st3.cache.lookup name = none → name ∉ st3.importing →
     (∃ c, (name, c) ∈ st3.compiled ∧ (c, gid) ∈ st3.loaded) →
-    R (name :: stack) (st3.enter name gid stack) st5 →
-    R stack st3 (st5.fail name)
+    R (st3.enter name gid) st5 →
+    R st3 (st5.leave.fail name)
 
 theorem noteOpens_cache (st : St) (env : Env) (n : Path) : (st.noteOpens env n).cache = st.cache := by
   unfold St.noteOpens; split <;> rfl
@@ -159,6 +164,15 @@ theorem noteCompiled_cache (st : St) (env : Env) (n : Path) : (st.noteCompiled e
 theorem loadCode_cache (st : St) (c : Nat) : (st.loadCode c).cache = st.cache := by
   unfold St.loadCode; split <;> rfl
 theorem loadCode_compiled (st : St) (c : Nat) : (st.loadCode c).compiled = st.compiled := by
+  unfold St.loadCode; split <;> rfl
+theorem noteOpens_importing (st : St) (env : Env) (n : Path) : (st.noteOpens env n).importing = st.importing := by
+  unfold St.noteOpens; split <;> rfl
+theorem noteCompiled_importing (st : St) (env : Env) (n : Path) :
+    (st.noteCompiled env n).importing = st.importing := by
+  unfold St.noteCompiled; split
+  · rfl
+  · split <;> rfl
+theorem loadCode_importing (st : St) (c : Nat) : (st.loadCode c).importing = st.importing := by
   unfold St.loadCode; split <;> rfl
 
 theorem lookup_mem {κ α : Type} [BEq κ] [LawfulBEq κ] (l : List (κ × α)) (k : κ) (v : α)
@@ -195,69 +209,78 @@ theorem noteCompiled_mem (st : St) (env : Env) (n : Path) :
     exact lookup_mem _ _ _ hc
   · split <;> simp [St.codeOf, List.lookup]
 
-theorem importModule_rel {R : List Path → St → St → Prop} (env : Env) (hR : ImpOK env R) :
-    ∀ (fuel : Nat) (stack : List Path) (depth : Nat) (st : St) (name : Path),
-      R stack st (importModule env fuel stack depth st name).2 := by
+theorem importModule_rel {R : St → St → Prop} (env : Env) (hR : ImpOK env R) :
+    ∀ (fuel : Nat) (depth : Nat) (st : St) (name : Path),
+      R st (importModule env fuel depth st name).2 := by
   intro fuel
   induction fuel with
-  | zero => intro stack depth st name; simp only [importModule]; exact hR.nofuel stack st name
+  | zero => intro depth st name; simp only [importModule]; exact hR.nofuel st name
   | succ fuel ih =>
-    intro stack depth st name
-    have hrel := hR.rel stack
+    intro depth st name
+    have hrel := hR.rel
     simp only [importModule]
     split
     · exact hrel.refl st
     · rename_i hmiss
-      have h1 := hR.opens stack st name
       split
-      · exact h1
-      · rename_i body hbody
-        have h2 := hR.compiled stack (st.noteOpens env name) name
-        have h3 := hR.load stack ((st.noteOpens env name).noteCompiled env name)
-          (((st.noteOpens env name).noteCompiled env name).codeOf name)
-        have h13 := hrel.trans h1 (hrel.trans h2 h3)
+      · exact hR.refuse st name
+      · rename_i hnotin
+        have hni : name ∉ st.importing := by simpa using hnotin
+        have h1 := hR.opens st name
         split
-        · exact hrel.trans h13 (hR.overflow stack _ name)
-        · have hc : (((st.noteOpens env name).noteCompiled env name).loadCode
-              (((st.noteOpens env name).noteCompiled env name).codeOf name)).cache.lookup name = none := by
-            rw [loadCode_cache, noteCompiled_cache, noteOpens_cache]; exact hmiss
-          have hm : ∃ c, (name, c) ∈ (((st.noteOpens env name).noteCompiled env name).loadCode
-                (((st.noteOpens env name).noteCompiled env name).codeOf name)).compiled ∧
-              (c, ((st.noteOpens env name).noteCompiled env name).gidOf
-                (((st.noteOpens env name).noteCompiled env name).codeOf name)) ∈
-              (((st.noteOpens env name).noteCompiled env name).loadCode
-                (((st.noteOpens env name).noteCompiled env name).codeOf name)).loaded :=
-            ⟨_, by rw [loadCode_compiled]; exact noteCompiled_mem _ env name, loadCode_mem _ _⟩
-          have hb := execStmts_rel (hR.rel (name :: stack)) (importModule env fuel (name :: stack))
-            (fun d s n => ih (name :: stack) d s n) env
-            (((st.noteOpens env name).noteCompiled env name).gidOf
-              (((st.noteOpens env name).noteCompiled env name).codeOf name)) (depth + 1) body
-            ((((st.noteOpens env name).noteCompiled env name).loadCode
-              (((st.noteOpens env name).noteCompiled env name).codeOf name)).enter name
-              (((st.noteOpens env name).noteCompiled env name).gidOf
-                (((st.noteOpens env name).noteCompiled env name).codeOf name)) stack) []
+        · exact h1
+        · rename_i body hbody
+          have h2 := hR.compiled (st.noteOpens env name) name
+          have h3 := hR.load ((st.noteOpens env name).noteCompiled env name)
+            (((st.noteOpens env name).noteCompiled env name).codeOf name)
+          have h13 := hrel.trans h1 (hrel.trans h2 h3)
           split
-          · exact hrel.trans h13 (hR.bodyOk stack _ _ name _ hc hm hb)
-          · exact hrel.trans h13 (hR.bodyFail stack _ _ name _ hc hm hb)
+          · exact hrel.trans h13 (hR.overflow _ name)
+          · have hc : (((st.noteOpens env name).noteCompiled env name).loadCode
+                (((st.noteOpens env name).noteCompiled env name).codeOf name)).cache.lookup name = none := by
+              rw [loadCode_cache, noteCompiled_cache, noteOpens_cache]; exact hmiss
+            have hi : name ∉ (((st.noteOpens env name).noteCompiled env name).loadCode
+                (((st.noteOpens env name).noteCompiled env name).codeOf name)).importing := by
+              rw [loadCode_importing, noteCompiled_importing, noteOpens_importing]; exact hni
+            have hm : ∃ c, (name, c) ∈ (((st.noteOpens env name).noteCompiled env name).loadCode
+                  (((st.noteOpens env name).noteCompiled env name).codeOf name)).compiled ∧
+                (c, ((st.noteOpens env name).noteCompiled env name).gidOf
+                  (((st.noteOpens env name).noteCompiled env name).codeOf name)) ∈
+                (((st.noteOpens env name).noteCompiled env name).loadCode
+                  (((st.noteOpens env name).noteCompiled env name).codeOf name)).loaded :=
+              ⟨_, by rw [loadCode_compiled]; exact noteCompiled_mem _ env name, loadCode_mem _ _⟩
+            have hb := execStmts_rel hR.rel (importModule env fuel)
+              (fun d s n => ih d s n) env
+              (((st.noteOpens env name).noteCompiled env name).gidOf
+                (((st.noteOpens env name).noteCompiled env name).codeOf name)) (depth + 1) body
+              ((((st.noteOpens env name).noteCompiled env name).loadCode
+                (((st.noteOpens env name).noteCompiled env name).codeOf name)).enter name
+                (((st.noteOpens env name).noteCompiled env name).gidOf
+                  (((st.noteOpens env name).noteCompiled env name).codeOf name)))
+            split
+            · exact hrel.trans h13 (hR.bodyOk _ _ name _ hc hi hm hb)
+            · exact hrel.trans h13 (hR.bodyFail _ _ name _ hc hi hm hb)
 
 /-- a whole evaluation: the script's statements with the real import function -/
-theorem run_rel {R : List Path → St → St → Prop} (env : Env) (hR : ImpOK env R) (fuel : Nat)
-    (main : List Stmt) : R [] St.init (run env fuel main).2 := by
+theorem run_rel {R : St → St → Prop} (env : Env) (hR : ImpOK env R) (fuel : Nat)
+    (main : List Stmt) : R St.init (run env fuel main).2 := by
   unfold run
-  exact execStmts_rel (hR.rel []) _ (fun d s n => importModule_rel env hR fuel [] d s n) env 0 0 main St.init []
+  exact execStmts_rel hR.rel _ (fun d s n => importModule_rel env hR fuel d s n) env 0 0 main St.init
 
 end Risor.C14
 
 namespace Risor.C14
 open Risor.C13 (Path)
 
-/-! ### Instance 1: run-once.  Every executed body is cached or still on the stack. -/
+/-! ### Instance 1: run-once.  Every executed body is cached or is being imported. -/
 
-def J (stack : List Path) (st : St) : Prop :=
-  (∀ n ∈ st.ticks, n ∈ st.cache.map (·.1) ∨ n ∈ stack) ∧ st.ticks.Nodup
+def J (st : St) : Prop :=
+  (∀ n ∈ st.ticks, n ∈ st.cache.map (·.1) ∨ n ∈ st.importing) ∧ st.ticks.Nodup
 
-def R2 (stack : List Path) (st st' : St) : Prop :=
-  (Clean st' → Clean st) ∧ (Clean st' → J stack st → J stack st')
+/-- `vm.importing` is a stack (every step leaves it as it found it), the guard is monotone, and
+    under the guard the invariant `J` is kept -/
+def R2 (st st' : St) : Prop :=
+  st'.importing = st.importing ∧ (Clean st' → Clean st) ∧ (Clean st' → J st → J st')
 
 theorem lookup_none_not_mem {α : Type} (l : List (Path × α)) (k : Path) (h : l.lookup k = none) :
     k ∉ l.map (·.1) := by
@@ -278,69 +301,66 @@ theorem not_clean_fail (st : St) (n : Path) : ¬ Clean (st.fail n) := by
   have := h.1
   simp [St.fail] at this
 
-theorem R2_relOK (stack : List Path) : RelOK (R2 stack) where
-  refl := fun _ => ⟨fun h => h, fun _ h => h⟩
-  trans := fun h1 h2 => ⟨fun hc => h1.1 (h2.1 hc), fun hc hj => h2.2 hc (h1.2 (h2.1 hc) hj)⟩
-  store := fun _ _ _ _ => ⟨fun h => h, fun _ h => h⟩
-  misb := fun _ => ⟨fun h => h, fun _ h => h⟩
+theorem R2_relOK : RelOK R2 where
+  refl := fun _ => ⟨rfl, fun h => h, fun _ h => h⟩
+  trans := fun h1 h2 => ⟨h2.1.trans h1.1, fun hc => h1.2.1 (h2.2.1 hc),
+    fun hc hj => h2.2.2 hc (h1.2.2 (h2.2.1 hc) hj)⟩
+  store := fun _ _ _ _ => ⟨rfl, fun h => h, fun _ h => h⟩
   spawn := by
     intro st st1 h
-    have hfalse : Clean { st1 with cache := st.cache, loaded := st.loaded } → False := by
+    have hfalse : Clean { st1 with cache := st.cache, loaded := st.loaded, importing := st.importing } → False := by
       intro hc
-      have := (h.1 hc).2.2
+      have := (h.2.1 hc).2
       simp at this
-    exact ⟨fun hc => (hfalse hc).elim, fun hc => (hfalse hc).elim⟩
+    exact ⟨rfl, fun hc => (hfalse hc).elim, fun hc => (hfalse hc).elim⟩
 
 theorem R2_impOK (env : Env) : ImpOK env R2 where
   rel := R2_relOK
-  nofuel := fun _ st n => ⟨fun h => (not_clean_fail _ n h).elim, fun h => (not_clean_fail _ n h).elim⟩
+  nofuel := fun st n => ⟨rfl, fun h => (not_clean_fail _ n h).elim, fun h => (not_clean_fail _ n h).elim⟩
+  refuse := fun _ _ => ⟨rfl, fun h => h, fun _ h => h⟩
   opens := by
-    intro stack st n
+    intro st n
     unfold St.noteOpens
     split
-    · exact ⟨fun h => h, fun _ h => h⟩
-    · exact ⟨fun h => h, fun _ h => h⟩
+    · exact ⟨rfl, fun h => h, fun _ h => h⟩
+    · exact ⟨rfl, fun h => h, fun _ h => h⟩
   compiled := by
-    intro stack st n
+    intro st n
     unfold St.noteCompiled
     split
-    · exact ⟨fun h => h, fun _ h => h⟩
+    · exact ⟨rfl, fun h => h, fun _ h => h⟩
     · split
-      · exact ⟨fun h => h, fun _ h => h⟩
-      · exact ⟨fun h => h, fun _ h => h⟩
+      · exact ⟨rfl, fun h => h, fun _ h => h⟩
+      · exact ⟨rfl, fun h => h, fun _ h => h⟩
   load := by
-    intro stack st n
+    intro st n
     unfold St.loadCode
     split
-    · exact ⟨fun h => h, fun _ h => h⟩
-    · exact ⟨fun h => h, fun _ h => h⟩
-  overflow := fun _ st n => ⟨fun h => (not_clean_fail _ n h).elim, fun h => (not_clean_fail _ n h).elim⟩
-  bodyFail := fun _ _ st5 n _ _ _ _ =>
-    ⟨fun h => (not_clean_fail st5 n h).elim, fun h => (not_clean_fail st5 n h).elim⟩
+    · exact ⟨rfl, fun h => h, fun _ h => h⟩
+    · exact ⟨rfl, fun h => h, fun _ h => h⟩
+  overflow := fun st n => ⟨rfl, fun h => (not_clean_fail _ n h).elim, fun h => (not_clean_fail _ n h).elim⟩
+  bodyFail := by
+    intro st3 st5 n gid _ _ _ hb
+    refine ⟨?_, fun h => (not_clean_fail _ n h).elim, fun h => (not_clean_fail _ n h).elim⟩
+    show st5.importing.tail = st3.importing
+    rw [hb.1]; rfl
   bodyOk := by
-    intro stack st3 st5 name gid hmiss _ hb
-    have hc4 : Clean (st5.cacheAdd name st3.objs.length) → Clean (st3.enter name gid stack) := fun hc => hb.1 hc
-    have hns : Clean (st3.enter name gid stack) → name ∉ stack := by
-      intro hc hin
-      have := hc.2.1
-      simp [St.enter, hin] at this
-    have hc3 : Clean (st3.enter name gid stack) → Clean st3 := by
-      intro hc
-      have hn := hns hc
-      refine ⟨hc.1, ?_, hc.2.2⟩
-      have := hc.2.1
-      simpa [St.enter, hn] using this
-    refine ⟨fun hc => hc3 (hc4 hc), ?_⟩
+    intro st3 st5 name gid hmiss hni _ hb
+    have himp5 : st5.importing = name :: st3.importing := hb.1
+    have hc4 : Clean (st5.leave.cacheAdd name st3.objs.length) → Clean (st3.enter name gid) := fun hc => hb.2.1 hc
+    have hc3 : Clean (st3.enter name gid) → Clean st3 := fun hc => hc
+    refine ⟨?_, fun hc => hc3 (hc4 hc), ?_⟩
+    · show st5.importing.tail = st3.importing
+      rw [himp5]; rfl
     intro hc hj
     have hcE := hc4 hc
-    have hn := hns hcE
     have hnc : name ∉ st3.cache.map (·.1) := lookup_none_not_mem _ _ hmiss
     have hnt : name ∉ st3.ticks := by
       intro hin
       rcases hj.1 name hin with h | h
       · exact hnc h
-      · exact hn h
-    have hjE : J (name :: stack) (st3.enter name gid stack) := by
+      · exact hni h
+    have hjE : J (st3.enter name gid) := by
       refine ⟨?_, ?_⟩
       · intro n hin
         simp only [St.enter, List.mem_append, List.mem_singleton] at hin
@@ -348,7 +368,7 @@ theorem R2_impOK (env : Env) : ImpOK env R2 where
         · rcases hj.1 n hin with h | h
           · exact Or.inl h
           · exact Or.inr (List.mem_cons_of_mem _ h)
-        · exact Or.inr (by simp)
+        · exact Or.inr (by simp [St.enter])
       · simp only [St.enter]
         rw [List.nodup_append]
         refine ⟨hj.2, by simp, ?_⟩
@@ -356,15 +376,19 @@ theorem R2_impOK (env : Env) : ImpOK env R2 where
         simp only [List.mem_singleton] at hb'
         subst hb'
         intro e; subst e; exact hnt ha
-    have hj5 := hb.2 hc hjE
+    have hj5 := hb.2.2 hc hjE
     refine ⟨?_, hj5.2⟩
     intro n hin
-    rcases hj5.1 n hin with h | h
-    · left; simp only [St.cacheAdd, List.map_cons, List.mem_cons]; exact Or.inr h
-    · simp only [List.mem_cons] at h
+    have hin5 : n ∈ st5.ticks := hin
+    rcases hj5.1 n hin5 with h | h
+    · left; simp only [St.cacheAdd, St.leave, List.map_cons, List.mem_cons]; exact Or.inr h
+    · rw [himp5] at h
+      simp only [List.mem_cons] at h
       rcases h with rfl | h
       · left; simp [St.cacheAdd]
-      · exact Or.inr h
+      · right
+        show n ∈ st5.importing.tail
+        rw [himp5]; exact h
 
 /-! ### Instance 2: every globals array belongs to one code object; objects = body runs. -/
 
@@ -382,7 +406,7 @@ def K (st : St) : Prop :=
 /-- one module object per body execution, in the same order -/
 def OT (st : St) : Prop := st.objs.map (·.1) = st.ticks
 
-def R3 (_ : List Path) (st st' : St) : Prop :=
+def R3 (st st' : St) : Prop :=
   (∀ p ∈ st.owner, p ∈ st'.owner) ∧ (K st → K st') ∧ (OT st → OT st')
 
 theorem length_modifyAt {α : Type} (f : α → α) (n : Nat) (l : List α) :
@@ -442,9 +466,9 @@ theorem K_loadCode (st : St) (c : Nat) (h : K st) : K (st.loadCode c) := by
       exact ⟨c', hc1, List.mem_cons_of_mem _ hc2⟩
     · simp only [List.length_append]; omega
 
-theorem K_enter (st : St) (n : Path) (g : Nat) (stack : List Path)
+theorem K_enter (st : St) (n : Path) (g : Nat)
     (hm : ∃ c, (n, c) ∈ st.compiled ∧ (c, g) ∈ st.loaded) (h : K st) :
-    K (st.enter n g stack) := by
+    K (st.enter n g) := by
   obtain ⟨h1, h2, h3, h4, h5⟩ := h
   refine ⟨h1, h2, h3, ?_, h5⟩
   intro o ho
@@ -454,11 +478,10 @@ theorem K_enter (st : St) (n : Path) (g : Nat) (stack : List Path)
   · obtain ⟨c, hc1, hc2⟩ := hm
     exact ⟨c, hc1, h3 _ hc2⟩
 
-theorem R3_relOK (stack : List Path) : RelOK (R3 stack) where
+theorem R3_relOK : RelOK R3 where
   refl := fun _ => ⟨fun _ h => h, fun h => h, fun h => h⟩
   trans := fun h1 h2 => ⟨fun p hp => h2.1 p (h1.1 p hp), fun h => h2.2.1 (h1.2.1 h), fun h => h2.2.2 (h1.2.2 h)⟩
   store := fun st g k v => ⟨fun _ h => h, K_store st g k v, fun h => h⟩
-  misb := fun _ => ⟨fun _ h => h, fun h => h, fun h => h⟩
   spawn := by
     intro st st1 h
     refine ⟨fun p hp => h.1 p hp, ?_, fun ho => h.2.2 ho⟩
@@ -468,13 +491,14 @@ theorem R3_relOK (stack : List Path) : RelOK (R3 stack) where
 
 theorem R3_impOK (env : Env) : ImpOK env R3 where
   rel := R3_relOK
-  nofuel := fun _ _ _ => ⟨fun _ h => h, fun h => h, fun h => h⟩
+  nofuel := fun _ _ => ⟨fun _ h => h, fun h => h, fun h => h⟩
+  refuse := fun _ _ => ⟨fun _ h => h, fun h => h, fun h => h⟩
   opens := by
-    intro stack st n
+    intro st n
     unfold St.noteOpens
     split <;> exact ⟨fun _ h => h, fun h => h, fun h => h⟩
   compiled := by
-    intro stack st n
+    intro st n
     refine ⟨?_, K_noteCompiled st env n, ?_⟩
     · unfold St.noteCompiled
       split
@@ -485,7 +509,7 @@ theorem R3_impOK (env : Env) : ImpOK env R3 where
       · exact fun h => h
       · split <;> exact fun h => h
   load := by
-    intro stack st c
+    intro st c
     refine ⟨?_, K_loadCode st c, ?_⟩
     · intro p hp
       unfold St.loadCode
@@ -494,20 +518,20 @@ theorem R3_impOK (env : Env) : ImpOK env R3 where
       · exact List.mem_cons_of_mem _ hp
     · unfold St.loadCode
       split <;> exact fun h => h
-  overflow := fun _ _ _ => ⟨fun _ h => h, fun h => h, fun h => h⟩
+  overflow := fun _ _ => ⟨fun _ h => h, fun h => h, fun h => h⟩
   bodyOk := by
-    intro stack st3 st5 name gid _ hm hb
-    refine ⟨fun p hp => hb.1 p hp, fun hk => hb.2.1 (K_enter st3 name gid stack hm hk), ?_⟩
+    intro st3 st5 name gid _ _ hm hb
+    refine ⟨fun p hp => hb.1 p hp, fun hk => hb.2.1 (K_enter st3 name gid hm hk), ?_⟩
     intro ho
-    have : OT (st3.enter name gid stack) := by
+    have : OT (st3.enter name gid) := by
       simp only [OT, St.enter, List.map_append, List.map_cons, List.map_nil]
       rw [ho]
     exact hb.2.2 this
   bodyFail := by
-    intro stack st3 st5 name gid _ hm hb
-    refine ⟨fun p hp => hb.1 p hp, fun hk => hb.2.1 (K_enter st3 name gid stack hm hk), ?_⟩
+    intro st3 st5 name gid _ _ hm hb
+    refine ⟨fun p hp => hb.1 p hp, fun hk => hb.2.1 (K_enter st3 name gid hm hk), ?_⟩
     intro ho
-    have : OT (st3.enter name gid stack) := by
+    have : OT (st3.enter name gid) := by
       simp only [OT, St.enter, List.map_append, List.map_cons, List.map_nil]
       rw [ho]
     exact hb.2.2 this
@@ -564,25 +588,25 @@ theorem ImporterInv_noteOpens (st : St) (env : Env) (n : Path) (h : ImporterInv 
     ImporterInv (st.noteOpens env n) := by
   unfold St.noteOpens; split <;> exact h
 
-def R4 (_ : List Path) (st st' : St) : Prop := ImporterInv st → ImporterInv st'
+def R4 (st st' : St) : Prop := ImporterInv st → ImporterInv st'
 
-theorem R4_relOK (stack : List Path) : RelOK (R4 stack) where
+theorem R4_relOK : RelOK R4 where
   refl := fun _ h => h
   trans := fun h1 h2 h => h2 (h1 h)
   store := fun _ _ _ _ h => h
-  misb := fun _ h => h
   spawn := fun _ _ h hi => h hi
 
 theorem R4_impOK (env : Env) (hl : LocalImporter env) : ImpOK env R4 where
   rel := R4_relOK
-  nofuel := fun _ _ _ h => h
-  opens := fun _ st n h => ImporterInv_noteOpens st env n h
-  compiled := fun _ st n h => ImporterInv_noteCompiled st env hl n h
+  nofuel := fun _ _ h => h
+  refuse := fun _ _ h => h
+  opens := fun st n h => ImporterInv_noteOpens st env n h
+  compiled := fun st n h => ImporterInv_noteCompiled st env hl n h
   load := by
-    intro stack st c h
+    intro st c h
     unfold St.loadCode
     split <;> exact h
-  overflow := fun _ _ _ h => h
+  overflow := fun _ _ h => h
   bodyOk := fun _ _ _ _ _ _ _ hb h => hb h
   bodyFail := fun _ _ _ _ _ _ _ hb h => hb h
 
